@@ -408,11 +408,11 @@ Definition maybe_raise (s : state) : option exn :=
       end
   end.
 
-(* Stream._maybe_finish (cancel() is never called by these programs) *)
+(* Stream._maybe_finish: `if not self._cancel_done:` (cancel() is never called by these programs) and
+   the two implicit receives; on a closing transport they fail at once in Wrapper.__enter__ *)
 Definition maybe_finish (s : state) (bs : list batch) : step unit :=
-  if closing s then Ret tt s bs
-  else bind (if ri_done s then Ret tt s bs else recv_initial s bs) (fun _ s1 bs1 =>
-         if rt_done s1 then Ret tt s1 bs1 else recv_trailing s1 bs1).
+  bind (if ri_done s then Ret tt s bs else recv_initial s bs) (fun _ s1 bs1 =>
+    if rt_done s1 then Ret tt s1 bs1 else recv_trailing s1 bs1).
 
 Inductive fin := FinNone | FinExc (e : exn) | FinHang | FinStuck.
 
@@ -721,14 +721,8 @@ Definition d2d (k : kind) (bs : list batch) : bool :=
   match k with Call _ false => Nat.eqb (count_data bs) 0 && status_ok_received bs | _ => false end.
 Definition has_trl_ev (es : list aevent) : bool := match ev_trl es with Some _ => true | None => false end.
 (* (D2e -- END_STREAM without trailers made the call hang -- was repaired in /repo: no class any more) *)
-(* D2f: open() context, GOAWAY / connection loss delivered inline (before a step or before the exit) *)
-Definition closing_event (e : aevent) : bool := match e with AGoaway | ALost => true | _ => false end.
-Definition d2f (k : kind) (bs : list batch) : bool :=
-  match k with
-  | Open _ _ _ =>
-      existsb (fun b => match b_trig b with TS _ => existsb closing_event (b_events b) | TB => false end) bs
-  | Call _ _ => false
-  end.
+(* (D2f -- an open() context left after GOAWAY / connection loss exited successfully because
+   _maybe_finish was skipped on a closing transport -- was repaired in /repo: no class any more) *)
 (* D2g: :status 200, unacceptable content-type, a non-OK grpc-status somewhere, and a cut: the
    content-type is not looked at on the _maybe_raise path *)
 Definition d2g (k : kind) (bs : list batch) : bool :=
@@ -743,7 +737,7 @@ Definition d2g (k : kind) (bs : list batch) : bool :=
   | None => false
   end.
 Definition defect (k : kind) (bs : list batch) : bool :=
-  d2c k bs || d2d k bs || d2f k bs || d2g k bs.
+  d2c k bs || d2d k bs || d2g k bs.
 
 (* ---- enumeration of the bounded abstract domain ---- *)
 Definition all_st : list st_class := [S200; SNot200].
